@@ -1369,7 +1369,11 @@ def run_program(env, cfg, prog, record=True, plain=False, fault=None, emulate_ac
                     if not hasattr(cls, '__versioned__') or not env.manager.option(cls, 'versioning'):
                         continue
                     V = env.version_class(cls)
-                    keys = [k for k in sa.inspect(cls).columns.keys() if hasattr(V, k) and not effective_excluded(env, cls, k)]
+                    # the mapped columns of the VERSION class (a single-table base class maps the whole shared table, the
+                    # columns of its subclasses included) without the internal and the flag columns
+                    internal = [env.manager.option(cls, o_) for o_ in ('transaction_column_name', 'end_transaction_column_name',
+                                                                     'operation_type_column_name')]
+                    keys = [k for k in sa.inspect(V).columns.keys() if k not in internal and not k.endswith('_mod')]
                     for v in s3.query(V).all():
                         if type(v) is not V:
                             continue
